@@ -281,11 +281,18 @@ def object_chain_float_free(ck, rule, rule_elem):
             continue
         neg = False
         for g in pf.guards:
-            t = g[2]
-            if isinstance(t, ast.Compare) and len(t.ops) == 1 and dotted(t.left) == "self.n_frac" and isinstance(t.comparators[0], ast.Constant) and t.comparators[0].value == 0:
-                op = t.ops[0]
-                if (isinstance(op, (ast.GtE, ast.Gt)) and not g[1]) or (isinstance(op, (ast.Lt, ast.LtE)) and g[1]):
-                    neg = True
+            t = g[0]           # substituted test: locals bound to self.n_frac are seen through
+            pol = g[1]
+            while isinstance(t, ast.UnaryOp) and isinstance(t.op, ast.Not):
+                t, pol = t.operand, not pol
+            if isinstance(t, ast.Compare) and len(t.ops) == 1:
+                l, op, r = t.left, t.ops[0], t.comparators[0]
+                if isinstance(l, ast.Constant) and l.value == 0 and dotted(r) == "self.n_frac":
+                    l, r = r, l
+                    op = {ast.Lt: ast.Gt(), ast.Gt: ast.Lt(), ast.LtE: ast.GtE(), ast.GtE: ast.LtE()}.get(type(op), op)
+                if dotted(l) == "self.n_frac" and isinstance(r, ast.Constant) and r.value == 0:
+                    if (isinstance(op, (ast.GtE, ast.Gt)) and not pol) or (isinstance(op, (ast.Lt, ast.LtE)) and pol):
+                        neg = True
         if neg:
             continue
         fl = _float_producing(pf.ret)
